@@ -27,7 +27,6 @@ Section T.
 Variable sigma : oracle.
 Variable i : inst.
 Hypothesis Hnn : inst_nonneg_b i = true.
-Hypothesis Hflex : flex_post_b i = true.
 
 Definition lk (a b : op) : option tcfg := travel_lookup (i_travel i) (PM (o_mach a)) (PM (o_mach b)).
 
@@ -518,9 +517,9 @@ Theorem J4_apply x tr R x' :
   J4 x' /\ Q4 R x' /\ side2 tr x' = true.
 Proof.
   intros N [Hj T] [HQ Hdue] Hv Ha.
-  destruct (J_apply sigma i Hnn Hflex _ _ _ _ N Hj HQ Hv Ha) as [Hj' [HQ' S]].
+  destruct (J_apply sigma i Hnn _ _ _ _ N Hj HQ Hv Ha) as [Hj' [HQ' S]].
   assert (T' : TV x').
-  { eapply apply_preserves_TV; eauto; [destruct HQ as [_ HP]; apply HP; left; reflexivity|apply Hdue; left; reflexivity]. }
+  { eapply apply_preserves_TV; eauto; [destruct HQ as [_ [HP _]]; apply HP; left; reflexivity|apply Hdue; left; reflexivity]. }
   split; [split; auto|]. split; [|exact S]. split; [exact HQ'|].
   intros tr1 Hin. apply (due_fact_t_step x tr R x' tr1 HQ Ha Hin). apply Hdue. right; auto.
 Qed.
@@ -550,36 +549,39 @@ Lemma due_t_created x timed tele :
   J i x -> create_timed_transitions i x = Ok timed -> (forall tr, In tr tele -> OK3 x tr) ->
   forall tr, In tr (timed ++ tele) -> due_fact_t x tr.
 Proof.
-  intros [W [_ Dn]] H Htele tr Hin. apply in_app_iff in Hin. destruct Hin as [Hin|Hin]; [|apply (OK3_due_t x); auto].
+  intros HJ H Htele tr Hin. apply in_app_iff in Hin. destruct Hin as [Hin|Hin]; [|apply (OK3_due_t x); auto].
   unfold create_timed_transitions in H.
   destruct (create_timed_machine_transitions i x) as [a|] eqn:Ea; simpl in H; [|discriminate].
   destruct (create_timed_transport_transitions i x) as [b|] eqn:Eb; simpl in H; [|discriminate].
   inversion H; subst; clear H. apply in_app_iff in Hin. destruct Hin as [Hin|Hin].
   - destruct (timed_machines_comps i _ _ _ _ Ea) as [A1 _]. destruct (A1 _ Hin) as [[k [Hk _]] _].
     intros t Hc. rewrite Hc in Hk. discriminate.
-  - destruct (timed_transports_comps i x _ _ _ (fun ts Hi => NODEP_in _ _ Dn Hi) Eb) as [B1 _].
-    destruct (B1 _ Hin) as [k [ts [lk0 [z [Hts [Htt [-> [Hc' Ho]]]]]]]]. simpl in Htt, Hc'.
+  - destruct (timed_transport_slot i x _ _ HJ Eb Hin) as [k [ts [Hts [Htt [Hc' [[z Ho]|[b0 [k0 [d [_ [-> Hw]]]]]]]]]]].
+    2:{ intros t _ Hk. destruct Hw as [Hw|Hw]; rewrite Hk in Hw; discriminate. }
     intros t Hc Hk. rewrite Hc in Hc'. inversion Hc'; subst k.
     destruct (timed_transport_outage_spec _ _ _ _ _ Ho Htt Hk) as [Hst Hz].
     exists z, (t_job ts). split; auto. rewrite (tc_of _ _ _ Hts), Hst, Ho. reflexivity.
 Qed.
 
-Lemma Q4_timed x timed poss tele : NO x -> J4 x -> create_timed_transitions i x = Ok timed ->
+Lemma Q4_timed x timed poss tele : NO x -> J4 x -> BI x -> create_timed_transitions i x = Ok timed ->
   get_possible_transitions i x = Ok poss -> filter_teleport i x poss = Ok tele -> Q4 (timed ++ tele) x.
 Proof.
-  intros N [Hj _] H Hp Hf. split; [eapply Q_timed; eauto|]. eapply due_t_created; eauto.
+  intros N [Hj _] Hb H Hp Hf. split; [eapply Q_timed; eauto|]. eapply due_t_created; eauto.
   intros tr Hin. pose proof (tele_sub i _ _ _ Hf _ Hin) as Hi. destruct (offers_shape i _ _ _ Hp Hi); [left|right]; auto.
 Qed.
 
-Lemma Q4_timed0 x timed : NO x -> J4 x -> create_timed_transitions i x = Ok timed -> Q4 timed x.
+Lemma Q4_timed0 x timed : NO x -> J4 x -> BI x -> create_timed_transitions i x = Ok timed -> Q4 timed x.
 Proof.
-  intros N [Hj _] H. split; [eapply Q_timed0; eauto|]. intros tr Hin.
+  intros N [Hj _] Hb H. split; [eapply Q_timed0; eauto|]. intros tr Hin.
   apply (due_t_created x timed [] Hj H (fun tr0 (Hf : In tr0 []) => match Hf with end)). rewrite app_nil_r. exact Hin.
 Qed.
 
-Lemma Q4_offer x o : J4 x -> OK3 x o -> Q4 [o] x.
+Lemma E4_end x : J4 x -> Q4 [] x -> BI x.
+Proof. intros [Hj _] [HQ _]. eapply BI_end; eauto. Qed.
+
+Lemma Q4_offer x o : J4 x -> BI x -> create_timed_transitions i x = Ok [] -> OK3 x o -> Q4 [o] x.
 Proof.
-  intros [Hj _] Ho. split; [apply (Q_offer i x o Hj); eapply OK3_not_transit; eauto|].
+  intros [Hj _] Hb Hct Ho. split; [apply (Q_offer i x o Hj Hb Hct); exact Ho|].
   intros tr [<-|[]]. apply OK3_due_t; auto.
 Qed.
 
@@ -626,26 +628,26 @@ Proof.
 Qed.
 
 (* ---------- every run ---------- *)
-Theorem flex_travel_gap fuel x0 joker0 ta r m :
+Theorem run_travel_gap fuel x0 joker0 ta r m :
   clock_b x0 = true -> wfs_b i x0 = true -> fresh2_b i x0 = true -> nodep_b x0 = true -> agv_phase_b x0 = true ->
   reach sigma i fuel x0 joker0 ta r m -> travel_gap_b i (r_x r) = true.
 Proof.
   intros C W Fr Dn Ph H. apply NO_iff_clock_b in C.
   assert (J0 : J4 x0) by (split; [apply J_init; auto|apply fresh_TV; auto]).
-  destruct (reach_reachG sigma i Hnn J4 Q4 side2 OK3 J4_apply J4_now Q4_timed Q4_timed0 Q4_offer (offers_ok3 i) _ _ _ _ _ _ C J0 H)
+  destruct (reach_reachG sigma i Hnn J4 Q4 side2 OK3 BI J4_apply J4_now E4_end (BI_now) Q4_timed Q4_timed0 Q4_offer (offers_ok3 i) _ _ _ _ _ _ C J0 (BI_init _ Dn) H)
     as [_ [_ [xq [Nq [[_ [Gq _]] [E|[_ [z E]]]]]]]]; rewrite E.
   - apply GAP_travel_gap_b; auto.
   - exact (GAP_travel_gap_b _ Gq).
 Qed.
 
-Theorem flex_micro_travel_gap fuel x0 joker0 ta r m a r' m' lg :
+Theorem run_micro_travel_gap fuel x0 joker0 ta r m a r' m' lg :
   clock_b x0 = true -> wfs_b i x0 = true -> fresh2_b i x0 = true -> nodep_b x0 = true -> agv_phase_b x0 = true ->
   reach sigma i fuel x0 joker0 ta r m -> mw_step sigma i fuel r m a = MOk r' m' lg ->
   forall tr y, In (tr, y) lg -> travel_gap_b i y = true.
 Proof.
   intros C W Fr Dn Ph H Hm tr y Hin. apply NO_iff_clock_b in C.
   assert (J0 : J4 x0) by (split; [apply J_init; auto|apply fresh_TV; auto]).
-  destruct (reach_micro_J sigma i Hnn J4 Q4 side2 OK3 J4_apply J4_now Q4_timed Q4_timed0 Q4_offer (offers_ok3 i) _ _ _ _ _ _ _ _ _ _ C J0 H Hm _ _ Hin)
+  destruct (reach_micro_J sigma i Hnn J4 Q4 side2 OK3 BI J4_apply J4_now E4_end (BI_now) Q4_timed Q4_timed0 Q4_offer (offers_ok3 i) _ _ _ _ _ _ _ _ _ _ C J0 (BI_init _ Dn) H Hm _ _ Hin)
     as [[_ [Gy _]] _]. apply GAP_travel_gap_b; auto.
 Qed.
 
